@@ -2922,6 +2922,14 @@ def run_c20(ctx):
         # settings: every entry point has to replace them
         blanks = [b"", b" ", b"\n", b"\t\r\n \n", b"# only a comment\n", b"/* c */", b"// c", b"\n\n# c\n\n"]
         texts += blanks
+        # what an earlier call left in errno must not make the entry points disagree: an underflowing float (strtod
+        # leaves ERANGE) followed - directly, and after more than a scanner buffer of other text - by integer and
+        # hexadecimal literals; the same texts with errno preloaded (ERANGE, ENOENT) before each entry point
+        pad = b"".join(b"# padding line %d\n" % j for j in range(1200))
+        errno_texts = [b"tiny = 1e-5000;\nx = 5;\nh = 0x10;\nl = 7L;\n",
+                       b"tiny = 1e-5000;\n" + pad + b"x = 5;\nh = 0x10;\nl = 7L;\n",
+                       b"a = 12;\nb = 0xFFL;\nc = [ 1, 2, 3 ];\n"]
+        texts += errno_texts[:2]
         cases = []
         for t in texts:
             body = ["init", "fs put %s %s" % (hx(b"c20inc.cfg"), hx(b"inc = 7;\n")), "fs put %s %s" % (hx(b"c20.cfg"), hx(t))]
@@ -2931,6 +2939,12 @@ def run_c20(ctx):
                           "readck 8193 %s" % hx(t), "readf %s" % hx(b"c20.cfg")):
                 body += [entry, "dump"]
             cases.append("\n".join(body) + "\n")
+        for t in errno_texts:
+            for en in (34, 2):
+                body = ["init", "fs put %s %s" % (hx(b"c20.cfg"), hx(t))]
+                for entry in ("reads %s" % hx(t), "readst %s" % hx(t), "readck 8193 %s" % hx(t), "readf %s" % hx(b"c20.cfg")):
+                    body += ["seterrno %d" % en, entry, "dump"]
+                cases.append("\n".join(body) + "\n")
         res.distribution["texts"] = len(texts)
         res.distribution["sizes"] = sorted(set(len(t) // 1024 for t in texts))
     res.rule = ("NUL-free texts whose size puts each token kind (name, every number form, string with escapes, booleans, the "
